@@ -295,6 +295,50 @@ func (p *Program) LibFuncs() []*ssa.Function {
 func (p *Program) Func(name string) *ssa.Function { return p.FuncIn(p.Sftp, name) }
 
 func (p *Program) FuncIn(pkg *ssa.Package, name string) *ssa.Function {
+	if fn := p.funcInExact(pkg, name); fn != nil {
+		return fn
+	}
+	// re-homed: a package function that became a method (or a method that became a package function, or moved to another
+	// receiver) under the same name — accepted when the name is unique among the package's functions and methods
+	if strings.Contains(name, "$") {
+		return nil
+	}
+	short := name
+	if i := strings.Index(name, ")."); i >= 0 {
+		short = name[i+2:]
+	}
+	var found []*ssa.Function
+	if f := pkg.Func(short); f != nil && f.Blocks != nil {
+		found = append(found, f)
+	}
+	for _, mem := range pkg.Members {
+		t, ok := mem.(*ssa.Type)
+		if !ok {
+			continue
+		}
+		for _, rt := range []types.Type{t.Type(), types.NewPointer(t.Type())} {
+			if sel := p.SSA.MethodSets.MethodSet(rt).Lookup(pkg.Pkg, short); sel != nil {
+				if f := p.SSA.MethodValue(sel); f != nil && f.Blocks != nil && f.Synthetic == "" {
+					dup := false
+					for _, g := range found {
+						if g == f {
+							dup = true
+						}
+					}
+					if !dup {
+						found = append(found, f)
+					}
+				}
+			}
+		}
+	}
+	if len(found) == 1 {
+		return found[0]
+	}
+	return nil
+}
+
+func (p *Program) funcInExact(pkg *ssa.Package, name string) *ssa.Function {
 	base := name
 	var closure []string
 	if i := strings.IndexByte(name, '$'); i >= 0 {
